@@ -34,26 +34,38 @@ theorem stops_iff_not_continues (m : Meta) : m.stops = !m.continues := by
   obtain ⟨u, e⟩ := m
   rcases e with _ | ⟨r, t, i⟩ | _ | _ <;> rfl
 
-/-- **C11 (statement form) on the fragment `inF`** (PARTIAL).  For a statement of the fragment analysed at a reachable
-point of a fresh scope: if the end recorded under its position "stops execution", or the scope has stopped after it,
-then no execution completes the statement normally. -/
+/-- **C11 (statement form) on the fragment `inF`** (PARTIAL).  For a statement of the fragment (expressions may contain
+nested functions, see `C10_partial`) analysed at a reachable point of a fresh scope: if the end recorded under its
+position "stops execution" — for a statement that is not an expression or declaration statement, whose key may be
+shared with a function it starts with and is never consulted by the rules — or the scope has stopped after it, then no
+execution completes the statement normally. -/
 theorem C11_partial (s : Stmt) (hf : s.inF = true) (hnd : s.positions.Nodup) :
     let a' := visitStmt s { sc := {}, info := Info.empty }
-    (stopsEnd (a'.info.endAt s.pos) = true → (s.compl []).n = false) ∧
+    (s.isDeclOrExpr = false → stopsEnd (a'.info.endAt s.pos) = true → (s.compl []).n = false) ∧
     (stopsEnd a'.sc.end_ = true → (s.compl []).n = false) := by
   have hpre : Pre true s.positions { sc := {}, info := Info.empty } :=
-    ⟨fun h => by simp at h, fun _ _ => rfl, hnd, Or.inl rfl⟩
-  have h := visitStmt_ok s true _ hf hpre
-  exact ⟨fun hs => by simpa using h.p4 hs, fun hs => by simpa using h.p1 hs⟩
+    ⟨fun h => by simp at h, fun _ _ => rfl, hnd⟩
+  have h := visitStmt_ok s [] true _ hf hpre
+  exact ⟨fun hde hs => by simpa using h.p4 hde hs, fun hs => by simpa using h.p1 hs⟩
 
-/-- …and a whole statement list (e.g. the body of a getter without nested functions): if the scope has stopped at the
-end of the list, the list cannot complete normally — so a body that can fall off its end is never claimed to stop -/
+/-- …and a whole statement list (e.g. the body of a getter): if the scope has stopped at the end of the list, the list
+cannot complete normally — so a body that can fall off its end is never claimed to stop -/
 theorem C11_partial_body (l : Stmts) (hf : l.inF = true) (hnd : l.positions.Nodup) :
     stopsEnd (visitStmts l { sc := {}, info := Info.empty }).sc.end_ = true → l.compl.n = false := by
   have hpre : Pre true l.positions { sc := {}, info := Info.empty } :=
-    ⟨fun h => by simp at h, fun _ _ => rfl, hnd, Or.inl rfl⟩
+    ⟨fun h => by simp at h, fun _ _ => rfl, hnd⟩
   have h := visitStmts_ok l true _ hf hpre
   intro hs; simpa using h.p1 hs
+
+/-- why expression/declaration statements are excluded from the first claim: for `() => { return 1; };` the end
+recorded under the statement's position (0, shared with the arrow function) stops, yet the statement completes
+normally; the analyzer never reads it (`stmtEnd`) -/
+example :
+    let s : Stmt := .simple 0 .exprStmt (.cons (.expr .other (.cons (.fnScope 0 (.cons (.block 6
+      (.cons (.ret 8 (.cons (.expr .other .nil) .nil)) .nil)) .nil)) .nil)) .nil)
+    s.inF = true ∧ s.positions.Nodup ∧ (s.compl []).n = true ∧ s.isDeclOrExpr = true ∧
+      stopsEnd ((visitStmt s { sc := {}, info := Info.empty }).info.endAt s.pos) = true ∧
+      stopsEnd (visitStmt s { sc := {}, info := Info.empty }).sc.end_ = false := by decide
 
 /-- non-vacuity: `do { if (x) continue; return; } while (c);` is in the fragment, and its metadata does not stop -/
 example :
